@@ -11,19 +11,19 @@ open Gen
 
 def FieldW (n : Nat) : Prop := n = 1 ∨ n = 2 ∨ n = 4 ∨ n = 8
 
-theorem wrField_length (e : Enc) (n x : Nat) : (wrField e n x).length = n := by
+theorem wrField_length_arr (e : Enc) (n x : Nat) : (wrField e n x).length = n := by
   have hl : hostIsLittle = true := rfl
   simp [wrField, hostEncode, hl]
 
 theorem rdField_wrField (e : Enc) (n x : Nat) (hn : FieldW n) :
     rdField e (wrField e n x) = x % 2 ^ (8 * n) := by
-  rw [rdField_eq e _ (by rw [wrField_length]; exact hn), wrField_eq e n x hn, decode_encodeInt]
+  rw [rdField_eq e _ (by rw [wrField_length_arr]; exact hn), wrField_eq e n x hn, decode_encodeInt]
 
 theorem wrField_rdField (e : Enc) (bs : Bytes) (h : FieldW bs.length) :
     wrField e bs.length (rdField e bs) = bs := by
   rw [wrField_eq e _ _ h, rdField_eq e bs h, encode_decodeInt]
 
-theorem decodeInt_lt (e : Enc) (bs : Bytes) : decodeInt e bs < 2 ^ (8 * bs.length) := by
+theorem decodeInt_lt_arr (e : Enc) (bs : Bytes) : decodeInt e bs < 2 ^ (8 * bs.length) := by
   cases e
   · exact leDecode_lt bs
   · have := leDecode_lt bs.reverse
@@ -31,7 +31,7 @@ theorem decodeInt_lt (e : Enc) (bs : Bytes) : decodeInt e bs < 2 ^ (8 * bs.lengt
 
 theorem rdField_lt (e : Enc) (bs : Bytes) (h : FieldW bs.length) :
     rdField e bs < 2 ^ (8 * bs.length) := by
-  rw [rdField_eq e bs h]; exact decodeInt_lt e bs
+  rw [rdField_eq e bs h]; exact decodeInt_lt_arr e bs
 
 /-! ### byte strings -/
 
@@ -48,7 +48,7 @@ theorem wr_slice_self (d : Bytes) (p len : Nat) (h : p + len ≤ d.length) :
       congr 1; omega
     · rw [if_neg h1, if_neg h2]
 
-theorem slice_slice (d : Bytes) (p len off w : Nat) (h : off + w ≤ len) :
+theorem slice_slice_arr (d : Bytes) (p len off w : Nat) (h : off + w ≤ len) :
     slice (slice d p len) off w = slice d (p + off) w := by
   apply List.ext_getElem?
   intro i
@@ -315,7 +315,7 @@ theorem getEntry_eq {k lim r d m} (e : Enc) (hk : RelSitesOK k lim) (h : RelWF k
   rw [rdRange_some_ok (by omega), rdRange_some_ok (by omega)]
   simp only
   unfold decodeRec relRec
-  rw [slice_slice _ _ _ _ _ (by omega), slice_slice _ _ _ _ _ (by omega)]
+  rw [slice_slice_arr _ _ _ _ _ (by omega), slice_slice_arr _ _ _ _ _ (by omega)]
   cases ha : k.addend with
   | none => simp only
   | some aw =>
@@ -324,7 +324,7 @@ theorem getEntry_eq {k lim r d m} (e : Enc) (hk : RelSitesOK k lim) (h : RelWF k
     simp only
     rw [rdRange_some_ok (by omega)]
     simp only
-    rw [slice_slice _ _ _ _ _ (by omega)]
+    rw [slice_slice_arr _ _ _ _ _ (by omega)]
 
 /-- the buffer after `set_entry(i, …)` of the decoded entry with only the symbol replaced:
     r_offset and r_addend are written back unchanged, r_info is re-packed -/
@@ -362,7 +362,7 @@ theorem setEntry_eq {k lim r d m} (e : Enc) (hk : RelSitesOK k lim) (h : RelWF k
   -- first store: r_info
   have hlen1 : (wrField e k.infoW
       (k.info s' (decodeRec e k (relRec k r d idx.toNat)).rtype)).length = k.infoW :=
-    wrField_length _ _ _
+    wrField_length_arr _ _ _
   rw [wrRange_some_ok (by rw [hlen1]; omega)]
   simp only
   have hd1 : wr d (idx.toNat * r.entSize.toNat + k.infoOff)
@@ -388,11 +388,11 @@ theorem setEntry_eq {k lim r d m} (e : Enc) (hk : RelSitesOK k lim) (h : RelWF k
     rw [hl] at hlt
     show k.truncOffset (BitVec.ofNat 64 (rdField e (slice (relRec k r d idx.toNat) k.offOff k.offW))) = _
     unfold relRec
-    rw [slice_slice _ _ _ _ _ (by omega)]
+    rw [slice_slice_arr _ _ _ _ _ (by omega)]
     exact hk.trunc_off _ hlt
   have hlen2 : (wrField e k.offW
       (k.truncOffset (decodeRec e k (relRec k r d idx.toNat)).offset)).length = k.offW :=
-    wrField_length _ _ _
+    wrField_length_arr _ _ _
   rw [wrRange_some_ok (by rw [hlen2, hlenD]; omega), hoff]
   simp only
   cases ha : k.addend with
@@ -419,12 +419,12 @@ theorem setEntry_eq {k lim r d m} (e : Enc) (hk : RelSitesOK k lim) (h : RelWF k
           = sext64 aw (rdField e (slice d (idx.toNat * r.entSize.toNat + ao) aw)) := by
         unfold decodeRec relRec
         simp only [ha]
-        rw [slice_slice _ _ _ _ _ (by omega)]
+        rw [slice_slice_arr _ _ _ _ _ (by omega)]
       rw [hdec]
       exact hk.trunc_add ao aw ha _ hlt
     have hlen3 : (wrField e aw
         (k.truncAddend (decodeRec e k (relRec k r d idx.toNat)).addend)).length = aw :=
-      wrField_length _ _ _
+      wrField_length_arr _ _ _
     rw [wrRange_some_ok (by rw [hlen3, hlenD]; omega), hadd]
 
 theorem setInfoBytes_length {k lim r d m} (e : Enc) (hk : RelSitesOK k lim) (h : RelWF k r d m)
@@ -432,7 +432,7 @@ theorem setInfoBytes_length {k lim r d m} (e : Enc) (hk : RelSitesOK k lim) (h :
   have hin := h.rec_in hi
   have := hk.lay2
   unfold setInfoBytes
-  exact wr_length _ _ _ (by rw [wrField_length]; omega)
+  exact wr_length _ _ _ (by rw [wrField_length_arr]; omega)
 
 theorem setInfoBytes_other {k lim r d m} (e : Enc) (hk : RelSitesOK k lim) (h : RelWF k r d m)
     {i j : Nat} (hi : i < m) (hj : j < m) (hne : j ≠ i) (s' : BitVec 32) :
@@ -441,8 +441,8 @@ theorem setInfoBytes_other {k lim r d m} (e : Enc) (hk : RelSitesOK k lim) (h : 
   have hl2 := hk.lay2
   have hes := h.es
   unfold relRec setInfoBytes
-  apply slice_wr_of_disjoint _ _ _ _ _ (by rw [wrField_length]; omega)
-  rw [wrField_length]
+  apply slice_wr_of_disjoint _ _ _ _ _ (by rw [wrField_length_arr]; omega)
+  rw [wrField_length_arr]
   rcases Nat.lt_or_gt_of_ne hne with hlt | hgt
   · left; have := mul_step (es := r.entSize.toNat) hlt; omega
   · right; have := mul_step (es := r.entSize.toNat) hgt; omega
@@ -454,20 +454,20 @@ theorem setInfoBytes_same {k lim r d m} (e : Enc) (hk : RelSitesOK k lim) (h : R
   have hin := h.rec_in hi
   have hl1 := hk.lay1; have hl2 := hk.lay2
   have hlenW : (wrField e k.infoW (k.info s' (decodeRec e k (relRec k r d i)).rtype)).length
-      = k.infoW := wrField_length _ _ _
+      = k.infoW := wrField_length_arr _ _ _
   -- the three field slices of the new record
   have hbo : slice (relRec k r (setInfoBytes e k r d i s') i) k.offOff k.offW
       = slice (relRec k r d i) k.offOff k.offW := by
     unfold relRec
-    rw [slice_slice _ _ _ _ _ (by omega), slice_slice _ _ _ _ _ (by omega)]
+    rw [slice_slice_arr _ _ _ _ _ (by omega), slice_slice_arr _ _ _ _ _ (by omega)]
     unfold setInfoBytes
     exact slice_wr_of_disjoint _ _ _ _ _ (by rw [hlenW]; omega) (Or.inl (by omega))
   have hbi : slice (relRec k r (setInfoBytes e k r d i s') i) k.infoOff k.infoW
       = wrField e k.infoW (k.info s' (decodeRec e k (relRec k r d i)).rtype) := by
     unfold relRec
-    rw [slice_slice _ _ _ _ _ (by omega)]
+    rw [slice_slice_arr _ _ _ _ _ (by omega)]
     unfold setInfoBytes
-    have := slice_wr_same d (wrField e k.infoW (k.info s' (decodeRec e k (relRec k r d i)).rtype))
+    have := slice_wr_same_arr d (wrField e k.infoW (k.info s' (decodeRec e k (relRec k r d i)).rtype))
       (i * r.entSize.toNat + k.infoOff) (by rw [hlenW]; omega)
     rw [hlenW] at this
     exact this
@@ -488,7 +488,7 @@ theorem setInfoBytes_same {k lim r d m} (e : Enc) (hk : RelSitesOK k lim) (h : R
       simp only
       congr 2
       unfold relRec
-      rw [slice_slice _ _ _ _ _ (by omega), slice_slice _ _ _ _ _ (by omega)]
+      rw [slice_slice_arr _ _ _ _ _ (by omega), slice_slice_arr _ _ _ _ _ (by omega)]
       unfold setInfoBytes
       exact slice_wr_of_disjoint _ _ _ _ _ (by rw [hlenW]; omega) (Or.inr (by rw [hlenW]; omega))
   have e1 : (decodeRec e k (relRec k r (setInfoBytes e k r d i s') i)).offset
